@@ -7,22 +7,42 @@ import (
 	"os"
 	"path/filepath"
 	"sort"
+
+	"github.com/ethereum/go-ethereum/core/types/goattypes"
 )
 
 func main() {
 	if len(os.Args) < 2 {
-		fmt.Fprintln(os.Stderr, "usage: kharness <family> [-seed S] [-n N] [-out DIR] [-shards K] [-param P]")
+		fmt.Fprintln(os.Stderr, "usage: ah <family|smoke|registry> [-seed S] [-n N] [-out DIR] [-shards K] [-param P]")
 		os.Exit(2)
 	}
+	switch os.Args[1] {
+	case "smoke":
+		w := NewWorld("smoke", false, nil)
+		defer w.Close()
+		for i := 0; i < 4; i++ {
+			r := w.HonestBlock(nil, gasReq(w.Height, 1000), goattypes.BridgeRequests{}, goattypes.RelayerRequests{})
+			r.PrepareTxs = nil
+			js, _ := json.Marshal(r)
+			fmt.Println(string(js))
+		}
+		return
+	case "registry":
+		out := "/verif/coq/Gen/Registry.v"
+		if len(os.Args) > 2 {
+			out = os.Args[2]
+		}
+		writeRegistry(out)
+		return
+	}
 	famName := os.Args[1]
-	fs := flag.NewFlagSet("kharness", flag.ExitOnError)
+	fs := flag.NewFlagSet("ah", flag.ExitOnError)
 	seed := fs.Uint64("seed", 1, "seed")
 	n := fs.Int("n", 100, "number of cases")
 	out := fs.String("out", "/verif/work/"+famName, "output dir")
 	shards := fs.Int("shards", 1, "number of cases_k.v files")
-	param := fs.String("param", "", "family-specific parameter (e.g. property focus, replay file)")
+	param := fs.String("param", "", "family-specific parameter")
 	_ = fs.Parse(os.Args[2:])
-
 	fam, ok := families[famName]
 	if !ok {
 		names := []string{}
